@@ -323,7 +323,7 @@ template <bool kExact, bool kVar, bool kSca>
 void run_ints32_chunk(uint64_t chunk, mc::Ctx &ctx) {
   EncoderBuffer eb;
   uint64_t lens[6] = {0, 0, 0, 0, 0, 0};
-  uint64_t multi = 0;
+  uint64_t multi = 0, itemised = 0, not_itemised = 0;
   const uint32_t base = static_cast<uint32_t>(chunk << 16);
   for (uint32_t j = 0; j < 65536; ++j) {
     const uint32_t u = base + j;
@@ -364,8 +364,11 @@ void run_ints32_chunk(uint64_t chunk, mc::Ctx &ctx) {
         good = readall();
       }
     }
-    if (!good) {
+    if (!good && itemised >= 8) {
+      ++not_itemised;  // a chunk full of failures: diagnose the first 8 only
+    } else if (!good) {
       // slow path: find out which primitive failed and how
+      ++itemised;
       int len;
       bool any = false;
       const char *w = kVar ? varint_rt<uint32_t, kExact>(u, eb, &len) : nullptr;
@@ -380,7 +383,7 @@ void run_ints32_chunk(uint64_t chunk, mc::Ctx &ctx) {
       if (w) ctx.fail(std::string("scalar:f32:") + w, "value " + show_val(f)), any = true;
       if (!any) ctx.fail("ints32:concatenated-stream-mismatch", "value " + show_val(u));
     }
-    if (kExact && kVar) {
+    if (kExact && kVar && itemised < 8) {
       const char *w = varint_truncated<uint32_t>(u, eb);
       if (w) ctx.fail(std::string("varint:u32:") + w + "|len" + std::to_string(ref_len(u)), "value " + show_val(u));
       w = varint_truncated<int32_t>(s, eb);
@@ -398,6 +401,7 @@ void run_ints32_chunk(uint64_t chunk, mc::Ctx &ctx) {
     for (int l = 0; l <= 5; ++l)
       if (lens[l]) ctx.count(l ? "varint32_len" + std::to_string(l) : std::string("varint32_len_other"), lens[l]);
   if (kSca) ctx.count("scalar32_values", 3 * 65536);
+  if (not_itemised) ctx.count("ints32_failing_values_not_itemised", not_itemised);
   if (kVar && !ctx.replay) ctx.sh->distinct_n[1].fetch_add(multi, std::memory_order_relaxed);
 }
 
